@@ -19,7 +19,8 @@ TRUSTED = [
     'coq/Sem/Val.v: model of scipp unit algebra, dtype promotion, to_unit, astype, sqrt, where, comparisons (element-wise)',
     'coq/Sem/RInst.v: the R instance does not decide equality of unit multipliers in + - <= where (fail-closed, see file); the Q instance does',
     'coq/Sem/QInst.v rational approximation of sqrt (correspondence only)',
-    'tools/harness/c05_impl.py + lib/kcorr.py (exact serialisation of operands/results); tools/harness/c05_sweep.py and statement() in props/C05.py '
+    'tools/harness/c05_impl.py + lib/kcorr.py (exact serialisation of operands/results; building the containers handed to convert() and reading the per-event '
+    'energy_transfer of every item back in the order of the arrival times); tools/harness/c05_sweep.py and statement() in props/C05.py '
     '(the property statement in float64 Python: t0 = L sqrt(m_n/(2E)) from the operands as stored)',
     'Flocq 4.1.0 (Core, IEEE754.BinarySingleNaN) as the model of IEEE-754 arithmetic (coq/C05/NeverInf.v)',
 ]
@@ -75,7 +76,49 @@ def gen(rng, n):
         # per-element lengths / fixed energy (arrays along the tof dim) instead of scalars
         g['layout'] = 'aligned' if rng.random() < 0.25 else 'scalar'
         groups.append(g)
+    # containers for the convert route (drawn after all groups, so the stream of the groups themselves is unchanged):
+    # a DataArray of binned events, Datasets of 1, 2, 3 items - dense (shared dense tof coordinate) or binned with
+    # event-wise tof, each binned item with its own event order and its own cut into bins (empty bins included)
+    off = rng.randrange(len(CONTAINERS))
+    for i, g in enumerate(groups):
+        form, kinds = CONTAINERS[(i + off) % len(CONTAINERS)] if rng.random() < 0.8 else rng.choice(CONTAINERS)
+        items = []
+        for kind in kinds:
+            it = {'kind': kind}
+            if kind == 'binned':
+                order = list(range(NEV))
+                style = rng.random()
+                if style < 0.6:
+                    rng.shuffle(order)
+                elif style < 0.8:
+                    order.reverse()
+                it['order'] = order
+                # one event per bin / random cuts (several events in one bin, empty bins)
+                it['begin'] = list(range(1, NEV)) if rng.random() < 0.3 else sorted(rng.randrange(0, NEV) for _ in range(NEV - 1))
+            items.append(it)
+        g['container'] = {'form': form, 'items': items}
     return groups
+
+
+NEV = 24        # upper bound of the number of arrival times of a group (the harness keeps the entries < n)
+CONTAINERS = [('DataArray', ('binned',)), ('Dataset', ('dense',)), ('Dataset', ('binned',)),
+              ('Dataset', ('dense', 'dense')), ('Dataset', ('binned', 'binned')), ('Dataset', ('dense', 'binned')),
+              ('Dataset', ('binned', 'dense')), ('Dataset', ('binned', 'binned', 'binned')),
+              ('Dataset', ('dense', 'binned', 'binned')), ('Dataset', ('binned', 'dense', 'dense'))]
+
+
+def container_name(c):
+    return c['form'] + ('[' + ','.join(c['kinds']) + ']' if c['form'] != 'DataArray' else '(binned)')
+
+
+def item_routes(r):
+    """the answers of convert() on the container of a group, one (route name, answer record) per item"""
+    c = r.get('container')
+    if not c:
+        return []
+    if 'error_container' in r:
+        return [(f'convert:{container_name(c)}', {'error': r['error_container']})]
+    return [(f'convert:{container_name(c)}#{j}', it) for j, it in enumerate(r.get('convert_items') or [])]
 
 
 def _num(v):
@@ -88,8 +131,11 @@ ROUTES = (('kernel', 'result', 'error'), ('graph', 'result_graph', 'error_graph'
 
 def statement(ctx, g0, r, mn, stats=None):
     """THE PROPERTY STATEMENT evaluated on the implementation's answers for one group, for every entry point (kernel,
-    graph factory, convert): result in the unit of the supplied energy; Ei - Ef at the physical arrival time (element 0);
+    graph factory, convert on a dense DataArray, convert on a container - EVERY item of a binned DataArray / a Dataset of
+    1..3 dense or binned items, the latter per event): result in the unit of the supplied energy; Ei - Ef at the physical arrival time (element 0);
     NaN at / before the flight time t0 of the fixed-energy leg and a number clearly after it; never infinite.
+    an item of a container moreover returns the very numbers of the kernel (NaN pattern included) and may not lack the
+    energy_transfer (event) coordinate.
     t0 = L sqrt(m_n / (2 E)) is computed here from the operands as stored - not taken from the implementation."""
     import math
     if 'build_error' in r or 'operands' not in r:
@@ -114,17 +160,29 @@ def statement(ctx, g0, r, mn, stats=None):
              't0_of_fixed_leg': t0f, 't0_source_for_the_probes': r.get('t0_source')}
     tunit = shown['tof']['unit']
     kernel_bad = False
-    for route, rk, ek in ROUTES:
+    answers = [(route, r.get(rk), r.get(ek), None) for route, rk, ek in ROUTES]
+    # convert() on containers: every item of the container is an answer of its own
+    answers += [(route, it.get('result'), it.get('error'), it) for route, it in item_routes(r)]
+    kres = r.get('result') if isinstance(r.get('result'), dict) else None
+    for route, res, err, item in answers:
         pre = f'{mode}:{route}'
-        if ek in r:
-            if route == 'kernel' or 'error' not in r:
-                ctx.violation(f'{mode}:{route}-raises', f'{mode} via {route} raises {r[ek]} {r.get("error_text", "")} for positive finite operands: {shown}',
-                              dict(shown, route=route, error=r[ek]))
+        cont = {} if item is None else {'container': container_name(r['container']),
+                                        'item': {k: item[k] for k in ('item', 'kind', 'where', 'order', 'begin') if k in item}}
+        if err is not None:
+            if item is not None:
+                if 'error' not in r and 'error_convert' not in r:
+                    ctx.violation(f'{mode}:convert-container:{item.get("kind", "whole")}-item:no-energy-transfer',
+                                  f'{mode} via {route}: {err} for positive finite operands (the same arrival times converted as a dense DataArray give an answer): {dict(shown, **cont)}',
+                                  dict(shown, route=route, error=err, **cont))
+            elif route == 'kernel' or 'error' not in r:
+                ctx.violation(f'{mode}:{route}-raises', f'{mode} via {route} raises {err} {r.get("error_text", "")} for positive finite operands: {shown}',
+                              dict(shown, route=route, error=err))
             continue
-        res = r.get(rk)
         if res is None:
             continue
-        rep = dict(shown, route=route)
+        rep = dict(shown, route=route, **cont)
+        if item is not None:
+            pre = f'{mode}:convert-container:{item.get("kind")}-item'
         if 'values' not in res or res.get('unit') is None:
             ctx.violation(f'{pre}:result-shape', f'{mode} via {route} does not return a variable with a unit: {str(res)[:200]} on {shown}', rep)
             continue
@@ -166,6 +224,21 @@ def statement(ctx, g0, r, mn, stats=None):
                 ctx.violation(f'{pre}:{bad[0]}', f'{mode} via {route} {bad[1]}: {rep}', rep)
             kernel_bad = kernel_bad or route == 'kernel'
             continue
+        # an item of a container: the very numbers the kernel returns for these arrival times (NaN pattern included)
+        if item is not None and kres is not None and 'values' in kres and not kernel_bad:
+            kv = [_num(x) for x in kres['values']]
+            diff = [i for i, (a, b) in enumerate(zip(vals, kv)) if a != b]
+            if len(kv) == len(vals) and diff and (res['dtype'] == kres['dtype']):
+                i = diff[0]
+                rep['kernel_result'] = kv
+                ctx.violation(f'{pre}:differs-from-kernel', f'{mode} via {route}: arrival time {tof[i]!r} {tunit} (element {i}) gives {vals[i]!r}, the kernel gives {kv[i]!r} '
+                              f'for the same operands: {rep}', rep)
+                continue
+            if stats is not None:
+                stats['container_elements'] = stats.get('container_elements', 0) + len(vals)
+                cc = stats.setdefault('containers', {})
+                cn = container_name(r['container'])
+                cc[cn] = cc.get(cn, 0) + 1
         # element 0: the physical arrival time t = L1/v(Ei) + L2/v(Ef)
         v = vals[0]
         if not phys or isinstance(v, str):
@@ -208,6 +281,16 @@ def correspondence(ctx):
         for route in ('graph', 'convert'):
             if 'result_' + route in r:
                 routes.append((route, dict(r, result=r['result_' + route])))
+        # convert() on the container of the group: the items are compared with the model like any other answer
+        # (statement() below looks at all items of all groups)
+        its = [(rt, it) for rt, it in item_routes(r) if 'result' in it]
+        if ctx.tier == 'quick':
+            # (quick tier: the last item, for every second group - alternating per ten groups so that every container form
+            #  is met; each item is also required by statement() to return the very numbers of the kernel, whose answer
+            #  is compared with the model for every group)
+            its = its[-1:] if (g['id'] + g['id'] // 10) % 2 == 0 else []
+        for rt, it in its:
+            routes.append((rt, dict(r, result=it['result'])))
         for route, rr in routes:
           try:
             cases = kcorr.element_cases(g['mode'], ['tof', 'L1', 'L2', 'E'], greq, rr, tol)
@@ -219,6 +302,8 @@ def correspondence(ctx):
             d['group'] = {k: g[k] for k in ('mode', 'units', 'dtypes')}
             d['route'] = route
             d['layout'] = g.get('layout', 'scalar')
+            if route.startswith('convert:'):
+                d['container'] = g.get('container')
             descs.append(d)
             if route != 'kernel':
                 continue
@@ -246,17 +331,22 @@ def correspondence(ctx):
             ctx.violation(f'{d["kernel"]}:value-single-precision-level',
                           f'{d["kernel"]}: float64 result is only single-precision accurate with a float32 operand: {d}', {'case': d, 'reason': why})
             continue
-        ctx.violation(f'{d["kernel"]}:{d["route"]}:{why.split(":")[0]}',
+        ctx.violation(f'{d["kernel"]}:{"convert-container" if d["route"].startswith("convert:") else d["route"]}:{why.split(":")[0]}',
                       f'{d["kernel"]} via {d["route"]}: implementation differs from the model ({why}) on {d}', {'case': d, 'reason': why})
     ctx.coverage.update({
         'evaluations': len(terms),
         'distinct_nontrivial': len({repr(d['operands']) for d in descs if isinstance(d['impl'], dict)}),
-        'routes': {rt: sum(1 for d in descs if d['route'] == rt) for rt in ('kernel', 'graph', 'convert')},
+        'routes': dict({rt: sum(1 for d in descs if d['route'] == rt) for rt in ('kernel', 'graph', 'convert')},
+                       **{'convert-on-container': sum(1 for d in descs if d['route'].startswith('convert:'))}),
+        'containers': stats.get('containers', {}),
+        'container_item_elements_checked_by_statement': stats.get('container_elements', 0),
         'rule': 'each group is run through the kernel, the graph factory entry and scippneutron.convert; per group: Ei,Ef in 1e-3..1e4 meV, L in 0.1..1e3 m, random units/dtypes '
                 '(fixed energy in meV / eV / ueV / J; every third group in J, half of those all-float64), L1, L2, E scalars or arrays along the tof dim; arrival times = physical t, '
                 't0*(1+k*eps) for k in -2..1024 (t0 from the implementation; from the formula when the helper is unusable), t0*{0.5..10}; non-trivial = a result element (NaN or value) was produced; '
                 'besides the Coq comparison with the regenerated model the statement itself (unit of the result, Ei-Ef at the physical time, NaN before / number after the formula t0, never infinite) '
-                'is evaluated in Python on all three entry points',
+                'is evaluated in Python on all three entry points; convert() is also run on a container per group - a DataArray of binned events, Datasets of 1..3 items, dense '
+                '(shared dense tof) and/or binned (event-wise tof, own event order, own cut into bins incl. empty bins) - and EVERY item must satisfy the statement and return the '
+                'very numbers of the kernel (Python); the last item of every second group (thorough tier: every item) is also compared with the model in Coq; DataGroup is not accepted by convert() (AttributeError) and not run',
         'energy_units': {eu: sum(1 for g in groups if g['units']['E'] == eu) for eu in ('meV', 'eV', 'ueV', 'J')},
         'J_all_float64_groups': sum(1 for g in groups if g['units']['E'] == 'J' and 'float32' not in g['dtypes'].values()),
         'layouts': {lay: sum(1 for g in groups if g.get('layout', 'scalar') == lay) for lay in ('scalar', 'aligned')},
@@ -271,8 +361,9 @@ def boundary_sweep(ctx, n):
     """the statement (never infinite; NaN at and before t0, a number clearly after it; Ei-Ef at the physical arrival time;
     unit of the supplied energy) evaluated on the implementation with all operands in one float type, small and large
     length units, energies in ueV / meV / eV / J (float32 + J with mm / m / km only: known finding float32-range), kernel /
-    graph factory / convert, scalar operands or three situations at once (per-detector arrays, 2-D arrival times),
-    arrival times from the first representable value after t0 (c05_sweep.py)"""
+    graph factory / convert, scalar operands or three situations at once (per-detector arrays, 2-D arrival times);
+    convert on a dense DataArray, a binned DataArray or a Dataset of 1..3 dense / binned items (one event per bin, events
+    stored in a random order; a later item is the one looked at); arrival times from the first representable value after t0 (c05_sweep.py)"""
     res = ctx.run_impl('c05_sweep.py', {'seed': ctx.seed, 'n': n})
     ctx.coverage['boundary_sweep_results_checked'] = ctx.coverage.get('boundary_sweep_results_checked', 0) + res.get('checked', 0)
     cl = ctx.coverage.setdefault('boundary_sweep_classes', {})
@@ -284,7 +375,8 @@ def boundary_sweep(ctx, n):
 def search(ctx, broken):
     """a broken obligation (translation / proof / exercise tie): evaluate the PROPERTY STATEMENT on the implementation over a
     much larger stream of groups (all entry points, all energy units incl. J in double precision, scalar and per-element
-    operands) - no model involved - and over the one-float-type sweep"""
+    operands, convert on every container form: binned DataArray, Datasets of 1..3 dense / binned items, every item and
+    every event looked at) - no model involved - and over the one-float-type sweep"""
     keys = [v['key'] for v in boundary_sweep(ctx, 3000)]
     rng = random.Random(ctx.seed * 7919 + 5)
     groups = gen(rng, 400 if ctx.tier == 'quick' else 4000)
